@@ -32,6 +32,20 @@ pub struct PatBind {
 }
 
 impl<'a> Cx<'a> {
+    /// `LIMB_BITS == 32` is only static when `LIMB_BITS` is the global constant of bigint.rs: no
+    /// local / parameter of that name in scope, and the file defines or imports it (C-CONST)
+    pub fn static_cond_checked(&self, e: &syn::Expr) -> Option<bool> {
+        let k = static_cond(e)?;
+        if self.lookup("LIMB_BITS").is_some() || !self.g.consts.contains_key("LIMB_BITS") {
+            return None;
+        }
+        if self.file != "bigint.rs" && self.file != "slow.rs" {
+            // (slow.rs imports it: whitelisted by C-USE; no other file does)
+            return None;
+        }
+        Some(k)
+    }
+
     /// Lower the two alternatives `a` / `b` (closures producing the branch value) under the
     /// condition `c`.
     pub fn lower_branches(
@@ -116,6 +130,7 @@ impl<'a> Cx<'a> {
             syn::Pat::Wild(_) => Ok(PatBind { pat: "_".into(), vars: vec![] }),
             syn::Pat::Ident(pi) if pi.by_ref.is_none() && pi.subpat.is_none() => {
                 let x = pi.ident.to_string();
+                self.name_ok(pi.span(), &x)?;
                 let cn = self.new_cname(&x, usize::MAX);
                 Ok(PatBind { pat: cn.clone(), vars: vec![(x, ty.clone(), cn)] })
             }
@@ -148,6 +163,7 @@ impl<'a> Cx<'a> {
 
     /// open a scope holding the variables of a pattern
     pub fn push_pat_scope(&mut self, b: &PatBind) {
+        // (the names were checked by `elem_pattern`)
         let mut sc = HashMap::new();
         for (x, ty, cn) in &b.vars {
             sc.insert(x.clone(), Var::plain(ty.clone(), false, cn.clone()));
@@ -158,7 +174,7 @@ impl<'a> Cx<'a> {
     pub fn lower_if(&mut self, e: &syn::ExprIf, expected: Option<&Ty>) -> R<Val> {
         let then_b = &e.then_branch;
         let else_e = e.else_branch.as_ref().map(|(_, x)| &**x);
-        if let Some(k) = static_cond(&e.cond) {
+        if let Some(k) = self.static_cond_checked(&e.cond) {
             if let Err(m) = &self.g.limb_ok {
                 return err(e.cond.span(), m);
             }
@@ -381,7 +397,7 @@ impl<'a> Cx<'a> {
         let mut arms: Vec<&syn::Arm> = vec![];
         for a in &e.arms {
             if let Some((_, g)) = &a.guard {
-                match static_cond(g) {
+                match self.static_cond_checked(g) {
                     Some(false) => continue,
                     Some(true) => return err(g.span(), "a statically true guard is unsupported"),
                     None => {}
@@ -719,6 +735,9 @@ impl<'a> Cx<'a> {
             syn::Expr::Paren(p) => self.lower_seq(&p.expr),
             syn::Expr::Group(p) => self.lower_seq(&p.expr),
             syn::Expr::Range(r) if self.raw_mode => self.lower_range_seq(r),
+            syn::Expr::Path(_) if self.seq_temp_only => {
+                err(e.span(), "`any` on an iterator variable advances it (only supported on a temporary such as `s.iter()`)")
+            }
             syn::Expr::Path(p) if p.path.get_ident().is_some() => {
                 let x = p.path.get_ident().unwrap().to_string();
                 match self.lookup(&x) {
@@ -734,6 +753,7 @@ impl<'a> Cx<'a> {
                 let args: Vec<&syn::Expr> = m.args.iter().collect();
                 match (name.as_str(), args.len()) {
                     ("iter", 0) => {
+                        self.mutref_ok = true;
                         let r = self.lower_pure(&m.receiver, None)?;
                         match r.ty {
                             Ty::Slice | Ty::Table => Ok((r.t, u64t)),
